@@ -1,6 +1,104 @@
-(* C16 - placeholder until Proofs/AddFacts.v lands. *)
-From Coq Require Import List.
-From BB Require Import Base.Names.
-Theorem C16_placeholder : forall l, NoDup (uniquify l).
-Proof. exact uniquify_NoDup. Qed.
-Print Assumptions C16_placeholder.
+(* C16 - sequence concatenation is compositional, associative and retargets jumps.
+   Only statements; every proof is `exact <lemma>` into Proofs/AddFacts.v. *)
+From Coq Require Import String List ZArith QArith Bool Permutation.
+From BB Require Import Base.Names Base.Num Base.PyList Model.Types Model.Blueprint Model.Forge Model.Element
+  Model.PyVal Model.Sequence Proofs.AddFacts.
+Import ListNotations.
+Open Scope Z_scope.
+
+(* a + b succeeds exactly for consistent operands with equal settings, and raises the stated errors otherwise *)
+Theorem C16_add_defined : forall a b,
+  seq_check a = Ok true -> seq_check b = Ok true ->
+  (specs_eqb (sspecs a) (sspecs b) = true -> exists c, seq_add a b = Ok c) /\
+  (specs_eqb (sspecs a) (sspecs b) = false -> seq_add a b = Err ESeqCompat).
+Proof. exact add_defined. Qed.
+
+Theorem C16_add_inconsistent : forall a b,
+  (seq_check a = Ok false -> seq_add a b = Err ESeqConsistency) /\
+  (seq_check a = Ok true -> seq_check b = Ok false -> seq_add a b = Err ESeqConsistency).
+Proof. exact add_inconsistent. Qed.
+
+(* len(a) + len(b) positions; position p <= len(a) holds a's entry p, position p > len(a) holds b's entry p - len(a) *)
+Theorem C16_add_positions : forall a b c,
+  seq_add a b = Ok c -> positions_1N a -> positions_1N b ->
+  let N := Z.of_nat (length (sdata a)) in
+  length (sdata c) = (length (sdata a) + length (sdata b))%nat /\ positions_1N c /\
+  (forall p, 1 <= p <= N -> alookup Z.eqb p (sdata c) = alookup Z.eqb p (sdata a)) /\
+  (forall p, N < p -> alookup Z.eqb p (sdata c) = alookup Z.eqb (p - N) (sdata b)) /\
+  sspecs c = sspecs b.
+Proof. exact add_positions. Qed.
+
+(* sequencing: a's entries unchanged; b's with every POSITIVE goto and jump target increased by len(a),
+   0 (next / off) and -1 (next) keep their meaning *)
+(* CORRECTED (the original statement is false for the model): two well-formedness hypotheses on b's sequencing dict
+   are needed by the whole conjunction, not only by the second part.
+   - positive keys of sseq b are needed by the FIRST part: a key k <= 0 of b lands on k + N <= N and overwrites a's
+     entry (a with 2 positions, sseq b = [(0, q)]: position 2 of a + b carries q, not a's entry);
+   - pairwise different keys (always true of a Python dict, not of a raw association list) are needed by the SECOND
+     part: dict.update keeps the last of two entries with the same key, alookup finds the first
+     (sseq b = [(1, q); (1, q')]: position N + 1 of a + b carries q', alookup 1 (sseq b) is q). *)
+Theorem C16_add_sequencing : forall a b c,
+  seq_add a b = Ok c -> seq_keys_ok a ->
+  (forall k, In k (akeys (sseq b)) -> 1 <= k) -> NoDup (akeys (sseq b)) ->
+  let N := Z.of_nat (length (sdata a)) in
+  (forall p, 1 <= p <= N -> alookup Z.eqb p (sseq c) = alookup Z.eqb p (sseq a)) /\
+  (forall p, N < p ->
+     alookup Z.eqb p (sseq c) = option_map (shift_sq N) (alookup Z.eqb (p - N) (sseq b))).
+Proof. exact add_sequencing. Qed.
+
+Theorem C16_retarget : forall N q,
+  twait (shift_sq N q) = twait q /\ nrep (shift_sq N q) = nrep q /\ jump_input (shift_sq N q) = jump_input q /\
+  goto (shift_sq N q) = (if 0 <? goto q then goto q + N else goto q) /\
+  jump_target (shift_sq N q) = (if 0 <? jump_target q then jump_target q + N else jump_target q) /\
+  (goto q = 0 -> goto (shift_sq N q) = 0) /\ (jump_target q = -1 -> jump_target (shift_sq N q) = -1) /\
+  (jump_target q = 0 -> jump_target (shift_sq N q) = 0).
+Proof. exact retarget. Qed.
+
+(* forged output: with the operands' settings literally identical, every position of a + b forges exactly as the
+   operand's position does (delays, filters, time axis options alike) *)
+Theorem C16_add_forge_entry : forall a b c f t x,
+  seq_add a b = Ok c -> sspecs a = sspecs b ->
+  forge_entry c f t x = forge_entry a f t x /\ forge_entry c f t x = forge_entry b f t x.
+Proof. exact add_forge_entry. Qed.
+
+(* associativity: whenever both bracketings are defined they are the same sequence *)
+Theorem C16_add_assoc : forall a b c ab bc l r,
+  positions_1N a -> positions_1N b -> positions_1N c -> seq_keys_ok a -> seq_keys_ok b -> seq_keys_ok c ->
+  (forall k, In k (akeys (sseq b)) -> 1 <= k) -> (forall k, In k (akeys (sseq c)) -> 1 <= k) ->
+  NoDup (akeys (sseq a)) -> NoDup (akeys (sseq b)) -> NoDup (akeys (sseq c)) ->
+  seq_add a b = Ok ab -> seq_add ab c = Ok l -> seq_add b c = Ok bc -> seq_add a bc = Ok r -> l = r.
+Proof. exact add_assoc. Qed.
+
+(* an empty left operand is the identity on data and sequencing *)
+Theorem C16_add_empty_left : forall b c,
+  seq_add (mkSeq [] [] (sspecs b) []) b = Ok c -> NoDup (akeys (sdata b)) -> NoDup (akeys (sseq b)) ->
+  sdata c = sdata b /\ sseq c = map (fun p => (fst p + 0, shift_sq 0 (snd p))) (sseq b).
+Proof. exact add_empty_left. Qed.
+
+(* blueprint concatenation: for a second operand without waituntil the forged blocks are the operands' blocks in
+   order, and the second operand's segment-bound marker specs are those of b moved by the length of a *)
+Theorem C16_bp_add_forge : forall a b SR fa fb,
+  length (args a) = length (funs a) -> length (durs a) = length (funs a) ->
+  length (args b) = length (funs b) -> length (durs b) = length (funs b) ->
+  has_wait b = false ->
+  forge_bp_with a SR (durs a) = Ok fa -> forge_bp_with b SR (durs b) = Ok fb ->
+  exists f, forge_bp_with (bp_add a b) SR (durs (bp_add a b)) = Ok f /\
+    fblocks f = fblocks fa ++ fblocks fb /\ fN f = fN fa + fN fb /\ fnewdurs f = fnewdurs fa ++ fnewdurs fb.
+Proof. exact bp_add_forge. Qed.
+
+Theorem C16_bp_add_segment_markers : forall SR na nb (sma smb : list mspec),
+  length sma = length na -> length smb = length nb ->
+  seg_specs SR (starts 0 (na ++ nb)) (sma ++ smb) =
+  seg_specs SR (starts 0 na) sma ++ seg_specs SR (starts (sumZ na) nb) smb.
+Proof. exact bp_add_segment_markers. Qed.
+
+Print Assumptions C16_add_defined.
+Print Assumptions C16_add_inconsistent.
+Print Assumptions C16_add_positions.
+Print Assumptions C16_add_sequencing.
+Print Assumptions C16_retarget.
+Print Assumptions C16_add_forge_entry.
+Print Assumptions C16_add_assoc.
+Print Assumptions C16_add_empty_left.
+Print Assumptions C16_bp_add_forge.
+Print Assumptions C16_bp_add_segment_markers.
